@@ -494,6 +494,16 @@ pub fn c11(rec: &mut Rec, lm: &Landmarks, rng: &mut Rng, thorough: bool) {
             m.parse_dur("from_str", &format!("-{v} {sp}"));
         }
     }
+    // signed sentences of every byte length from 3 to 12 (an offset is recognised by its length): one to six digits,
+    // short fractions, every spelling
+    for sp in spell {
+        for v in ["3", "36", "360", "3600", "36000", "360000", "1.5", "12.5", "12.25", "123.5", "1200", "0015"] {
+            for sign in ["-", "+"] {
+                m.rec.episode();
+                m.parse_dur("from_str", &format!("{sign}{v} {sp}"));
+            }
+        }
+    }
     // several units in one sentence
     let order = ["days", "h", "min", "s", "ms", "us", "ns"];
     let nm = if thorough { 20_000 } else { 1_500 };
